@@ -29,9 +29,9 @@ CLAIMS = {
             "The program-text enumeration is syntactic support, not the verdict; an impl whose T has no generator or an unexpected `unsafe` site is reported as uncovered and makes the check inconclusive (exit 2). Strings: lead bytes C2..DF/E1..EC/F1..F3 (E0, ED, F0, F4 special cases outside the bound). Serde restoration is under C16; dictionary tables with entries only at byte level (C07).", "3 C04"),
     "C05": ("Index containers vs a model array: Stride acceptance rule (documented pattern evaluated without wrap-around), state untouched on reject, len/is_empty/index/iter for Stride, IndexList, IndexOptimized, Vec<usize> over unconstrained 64-bit values, with clear; thorough adds one-step obligations from any valid Striding/Saturated state (covers histories of any length) and longer sequences.",
             "Sequences of 2-3 (thorough 4-5) pushes; IndexOptimized additionally from concrete mode prefixes. Path-wise CBMC exploration (--paths lifo) is raced with the merged formula for the heap-shape-symbolic containers.", "3 C05"),
-    "C06": ("The bit-level kernels underneath the Huffman container, on the real private code through verif-hooks: BitIterator::next one step at every alignment (3 symbolic bytes, any cursor), Decoder end-of-item on empty / Symbol-root / Further-root tables (the >= 512 symbol case), one real insert_decode into a void table, Decoder::next one step from an arbitrary mid-stream state (uniform 1- and 2-bit codes; thorough 3-bit and a nested 9-bit table built by the real insert_decode), push_symbols + Encoder with a one-entry code of symbolic length and code word from a symbolic pre-state (range, byte length, earlier bits unchanged, new bits), refusal of unknown symbols.",
+    "C06": ("The bit-level kernels underneath the Huffman container, on the real private code through verif-hooks: BitIterator::next one step at every alignment (3 symbolic bytes, any cursor), Decoder end-of-item on empty / Symbol-root / Further-root tables (the >= 512 symbol case), one real insert_decode into a void table, Decoder::next one step from an arbitrary mid-stream state (uniform 1- and 2-bit codes, a nested 9-bit table built by the real insert_decode at a byte-aligned position; thorough 3-bit and the nested table at any position), push_symbols + Encoder with a one-entry code of symbolic length (1..4, thorough 1..8 bits) and of 10 bits (wider than a byte) with a symbolic code word from a symbolic pre-state (range, byte length, earlier bits unchanged, new bits), refusal of unknown symbols.",
             "NOT decided (cannot be encoded: every path inserts into B-trees, measured time-outs in DESIGN.md 1.2): HuffmanContainer::push/merge_regions, create_from, code optimality, >= 1 bit per symbol, the single-symbol alphabet, raw mode, multi-symbol alphabets in the encoder. One-step obligations rely on the stated state invariants.", "3 C06"),
-    "C07": ("One push/read step from every valid single-entry dictionary state (entry bytes, tag in {0,1,2}, pushed bytes all symbolic; lengths 0..3): exact bytes back or refusal, an entry costs exactly one byte; append-only across coded and literal items; clear; generation 0 through the public API incl. the empty string; MisraGries in isolation (thorough).",
+    "C07": ("One push/read step from every valid single-entry dictionary state (entry bytes, tag in {0,1,2}, pushed bytes all symbolic; lengths 0..3): exact bytes back or refusal, an entry costs exactly one byte; append-only across coded and literal items; clear; generation 0 through the public API incl. the empty string.",
             "NOT decided: DictionaryCodec::new_from (choice of heavy hitters/tags), generations of merges, > 1024 distinct strings, several dictionary entries at once (B-tree inserts cannot be encoded).", "3 C07"),
     "C08": ("Twin run per composition: history, clear, pushes vs the same pushes on Default::default(): equal indices, reads and used bytes; a second variant reuses the shape of the last item before the clear so that stale dedup memory or offsets would be hit.",
             "Histories of 1-2 items before and after the clear. HuffmanContainer::clear not encodable.", "3 C08"),
@@ -50,7 +50,7 @@ CLAIMS = {
     "C15": ("==, partial_cmp, cmp of ReadSlice items coincide with the lexicographic order of the owned vectors for all pairs of <= 3 symbolic bytes with symbolic lengths in four representation combinations, rows of strings, nested slices (thorough), a triple cross-check, and raw Wrapped items.",
             "Agreement with a total order on all pairs implies the order axioms. Raw vs Huffman-ENCODED Wrapped items are compared for a uniform 2-bit code (table written by a verif-hook, two code words) against raw items of 1..3 symbols, one comparison operator per harness; encoded vs encoded and codes built by merge_regions are not covered.", "3 C15"),
     "C16": ("Serde round trip through a positional token format (so that exactly the derived Serialize/Deserialize code is executed): Stride (all variants, symbolic fields), IndexList, IndexOptimized in four modes, CollapseSequence, ConsecutiveIndexPairs, FlatStack, SliceRegion, OwnedRegion, StringRegion, Option/Result/Tuple regions - copy reads identically and answers a symbolic continuation identically (same indices, dedup and index-compression decisions). Stride (quick) and IndexList (thorough) are additionally decided through a self-describing token format with serde_json's data model (name-keyed maps, name-tagged enums, null, one number type), where serde attributes such as untagged / rename / flatten show their effect.",
-            "Concrete shapes with symbolic values (symbolic shapes exhaust memory). The positional format agrees with a self-describing one for plain derives only: when the crate's serde code asks for map / any / string support the harness reports HARNESS-LIMIT and the check is INCONCLUSIVE (exit 2), not a violation. The self-describing format costs 10-30x under CBMC and decides the two smallest states only. ColumnsRegion is not decided (out of memory / time-out in both engines). serde's own container impls are trusted as compiled.", "3 C16"),
+            "Concrete shapes with symbolic values (symbolic shapes exhaust memory). The positional format agrees with a self-describing one for plain derives only: when the crate's serde code asks for map / any / string support the harness reports HARNESS-LIMIT and the check is INCONCLUSIVE (exit 2), not a violation. The self-describing format costs 10-30x under CBMC and decides the two smallest states only. ColumnsRegion is decided for the fresh region only (any push after the round trip: out of memory / time-out in both engines). serde's own container impls are trusted as compiled.", "3 C16"),
     "C17": ("Capacity form: after reserve_items / reserve_regions / merge_regions / FlatStack::merge_capacity, pushing exactly the announced batch (incl. empty items, Some/None and Ok/Err mixes, nested slices, owned-Vec input form, plain vectors under Option/Result whose reserve_items arrives through filtering iterators) leaves every capacity reported by heap_size unchanged, on empty and populated targets, for the vector-backed structural regions. Allocator-call form with counting stubs on std::alloc::alloc and alloc::alloc::realloc_nonnull: no allocator call at all while announced plain-data contents are pushed, none for a push that fits the storage, and one growth step of the byte storage is 0 calls if the data fits, else exactly 1 with the capacity at least doubling (=> O(log n) calls for n pushes by induction on the step).",
             "Batches of 2-3 items; growth step for 5 concrete (capacity, length, added) triples with symbolic contents. Stubs: std::alloc::alloc, alloc::alloc::realloc_nonnull -> counting wrappers that allocate through std::alloc::System; a witness harness checks on every run that the stubs are in effect. Runs of 2^6..2^14 as such are outside the technique; the logarithmic bound is an arithmetic inference from the one-step obligation.", "3 C17"),
     "C18": ("heap_size accounting on 23 compositions: used <= capacity for every pair, sum of used covers the model payload after dedup and is monotone on push, after clear the payload is no longer accounted and no capacity shrank; every branch contributes (Err side, second tuple field, third column, FlatStack indices, slice index entries).",
